@@ -235,7 +235,11 @@ def run(tier: str) -> int:
     if quick and len(chosen) > 70:
         recent = [c for c in chosen if c[0] >= D(2015, 1, 1)]
         old = [c for c in chosen if c[0] < D(2015, 1, 1)]
-        chosen = rnd.sample(recent, min(len(recent), 45)) + rnd.sample(old, min(len(old), 12))
+        # cells that begin or end at a year boundary are always compared: values "explicitly derived from the date" are
+        # functions of the year, so this is where a date-derived value can leak into a neighbouring cell
+        yb = [c for c in recent if (c[0].month, c[0].day) == (1, 1) or (c[-1].month, c[-1].day) == (12, 31)]
+        rest = [c for c in recent if c not in yb]
+        chosen = yb + rnd.sample(rest, min(len(rest), max(0, 45 - len(yb)))) + rnd.sample(old, min(len(old), 12))
     ords = sorted({d.toordinal() for days in chosen for d in days})
     r.extra["cells_compared"] = len(chosen)
     models = dict(zip(ords, paramsio.model_envs(ords)))
